@@ -41,6 +41,11 @@ namespace nmtools::index
             for (nm_index_t i=1; i<=nm_index_t(n_planes); i++) {
                 at(result,-i) = at(src_shape,-i);
             }
+
+            // keep the batch extent of (N,C,spatial...) input: the leading axis broadcasts against the weight
+            if ((nm_size_t)src_dim > (nm_size_t)n_planes + 1) {
+                at(result,0) = at(src_shape,0);
+            }
         }
         
         return result;
